@@ -1,5 +1,10 @@
 use crate::state::models::CreatePersonalAccessTokenWithHash;
+#[cfg(not(kani))]
 use bytes::{Buf, BufMut, Bytes, BytesMut};
+#[cfg(kani)]
+use bytes::{Buf, Bytes};
+#[cfg(kani)]
+use iggy::verif_model::bytesmut::{BufMut, BytesMut};
 use iggy::bytes_serializable::BytesSerializable;
 use iggy::command::{
     Command, CHANGE_PASSWORD_CODE, CREATE_CONSUMER_GROUP_CODE, CREATE_PARTITIONS_CODE,
